@@ -1484,6 +1484,33 @@ void sm2_z256_point_copy_affine(SM2_Z256_POINT *R, const SM2_Z256_AFFINE_POINT *
 	sm2_z256_copy(R->Z, SM2_Z256_MODP_MONT_ONE);
 }
 
+#if defined(ENABLE_SM2_AMD64)
+// The assembly formulas yield the point at infinity for a == b as well as for a == -b.
+// Tell the two apart afterwards (only when the result is infinity) and double in the first case.
+void sm2_z256_point_add_affine_asm(SM2_Z256_POINT *r, const SM2_Z256_POINT *a, const SM2_Z256_AFFINE_POINT *b);
+
+void sm2_z256_point_add_affine(SM2_Z256_POINT *r, const SM2_Z256_POINT *a, const SM2_Z256_AFFINE_POINT *b)
+{
+	SM2_Z256_POINT t;
+
+	sm2_z256_point_add_affine_asm(&t, a, b);
+
+	if (sm2_z256_point_is_at_infinity(&t)
+		&& !sm2_z256_point_is_at_infinity(a)
+		&& !(sm2_z256_is_zero(b->x) && sm2_z256_is_zero(b->y))) {
+		sm2_z256_t Z1sqr, Z1cub, S2;
+		sm2_z256_modp_mont_sqr(Z1sqr, a->Z);
+		sm2_z256_modp_mont_mul(Z1cub, Z1sqr, a->Z);
+		sm2_z256_modp_mont_mul(S2, b->y, Z1cub);
+		if (sm2_z256_cmp(S2, a->Y) == 0) {
+			sm2_z256_point_dbl(r, a);
+			return;
+		}
+	}
+	*r = t;
+}
+#endif
+
 #if !defined(ENABLE_SM2_ARM64) && !defined(ENABLE_SM2_AMD64)
 void sm2_z256_point_add_affine(SM2_Z256_POINT *r, const SM2_Z256_POINT *a, const SM2_Z256_AFFINE_POINT *b)
 {
